@@ -506,14 +506,8 @@ pub fn stall(_seed: u64) -> usize {
         // .. and opens a second connection on which it stays silent (it is over its limit)
         let silent = connect_from("127.0.0.2").await;
         tokio::time::sleep(Duration::from_millis(150)).await;
-        let b = async {
-            let mut s = connect_from("127.0.0.3").await?;
-            s.write_packet(hand_in::HandshakePacket { protocol_version: 0, server_address: "".to_string(), server_port: 0, next_state: State::Status }).await.ok()?;
-            s.write_packet(status_in::StatusRequestPacket).await.ok()?;
-            let r: status_out::StatusResponsePacket = s.read_packet().await.ok()?;
-            Some(r)
-        };
-        let served = matches!(tokio::time::timeout(Duration::from_secs(2), b).await, Ok(Some(_)));
+        // client B (another address: 127.0.0.1, unused so far) probes from outside the server's runtime
+        let served = served_within(address, vec![], Duration::from_secs(2));
         drop(silent);
         stop.cancel();
         let _ = tokio::time::timeout(Duration::from_secs(3), server).await;
